@@ -284,7 +284,58 @@ impl Leg for Files {
     }
 }
 
+/// pykmertools.CgrComputer.vectorise_one against the exact model; ValueError exactly on a foreign byte
+#[derive(Clone, Debug, Serialize, Deserialize)]
+pub struct PyCase {
+    pub seq: Bytes,
+    pub s: u64,
+}
+
+pub struct Python;
+impl Leg for Python {
+    type Case = PyCase;
+    const NAME: &'static str = "python";
+    fn strategy(_tier: Tier) -> BoxedStrategy<PyCase> {
+        let nuc = (gen::nuc_seq(8, 300), gen::square_strategy()).prop_map(|(seq, s)| PyCase { seq: Bytes(seq), s });
+        let bad = (gen::nuc_seq(8, 120), any::<u16>(), gen::foreign(false), gen::square_strategy()).prop_map(|(mut seq, pos, fb, s)| {
+            let i = crate::util::idx16(pos, seq.len() + 1);
+            seq.insert(i, fb);
+            PyCase { seq: Bytes(seq), s }
+        });
+        prop_oneof![3 => nuc, 2 => bad].boxed()
+    }
+    fn check(c: &PyCase) -> Verdict {
+        let mut v = Verdict::new();
+        let seq = super::c01::utf8_safe(&c.seq);
+        let all_nuc = seq.iter().all(|&b| model::is_base(b));
+        v.class(if all_nuc { "python-nucleotides" } else { "python-reject" });
+        v.class_if(seq.iter().any(|&b| b >= 0x80), "non-ascii");
+        v.nontrivial = seq.len() >= 3;
+        match crate::pyworker::ask(&serde_json::json!({"op": "cgr", "s": c.s, "seq": crate::pyworker::hex(&seq)})) {
+            Err(e) => v.fail("python-worker", e),
+            Ok(r) => {
+                if all_nuc {
+                    match r["ok"].as_array() {
+                        None => v.fail("python-nucleotides-rejected", format!("pykmertools.CgrComputer rejected a nucleotide string: {}", crate::util::trunc(&r.to_string(), 200))),
+                        Some(a) => {
+                            let pts: Vec<(f64, f64)> = a.iter().map(|p| (p[0].as_f64().unwrap_or(f64::NAN), p[1].as_f64().unwrap_or(f64::NAN))).collect();
+                            if let Err((s, m)) = check_points(&pts, &seq, c.s) {
+                                v.fail(format!("python-{}", s), format!("pykmertools.CgrComputer({}).vectorise_one: {}", c.s, m));
+                            }
+                        }
+                    }
+                } else if r.get("value_error").is_none() {
+                    v.fail("python-foreign-byte-accepted", format!("a string with a non-nucleotide character did not raise ValueError: {}", crate::util::trunc(&r.to_string(), 200)));
+                }
+            }
+        }
+        v
+    }
+}
+
 pub fn run(ctx: &mut Ctx) {
+    let n = ctx.share(ctx.tier.pick(30_000, 400_000));
+    ctx.run_leg::<Python>(n, false, 1000);
     let n = ctx.share(ctx.tier.pick(40_000, 600_000));
     ctx.run_leg::<One>(n, false, 2000);
     let n = ctx.share(ctx.tier.pick(10_000, 200_000));
@@ -298,6 +349,7 @@ pub fn replay(leg: &str, case: &serde_json::Value) -> Option<Result<Verdict, Str
         "vectorise-one" => Some(crate::engine::replay_leg::<One>(case)),
         "reject-one" => Some(crate::engine::replay_leg::<Reject>(case)),
         "files" => Some(crate::engine::replay_leg::<Files>(case)),
+        "python" => Some(crate::engine::replay_leg::<Python>(case)),
         _ => None,
     }
 }
